@@ -205,6 +205,11 @@ fn handle_diagnostics(
 
         let mut files: SimpleFiles<String, &str> = SimpleFiles::new();
 
+        // The first file (having identifier 0) is for a diagnostic that is not
+        // about a particular file. Without this, the diagnostic would be shown
+        // as if it were about whichever file happens to be first.
+        files.add(String::new(), "");
+
         let mut unique_files: HashSet<&FileId> = HashSet::new();
         for diagnostic in diagnostics {
             for file_id in diagnostic.file_ids() {
